@@ -65,6 +65,10 @@ CHECKS = {
    tech="TLA+ spec Embed.tla (loader protocol with allocation accounting): TLC exhaustive over abstract files; every abstract file materialised and loaded by the real loaders in a memory-limited child; paired searches with/without an attached index and cosine evaluations recorded; TLC validates all observations (TraceEmbed.tla)",
    text="TLC checks the loader protocol for every abstract file (header, claimed vs present records, truncation) - allocation proportional to the file, vectors-or-error (a header-trusting reservation is the defect switch); each abstract file is written out for both loaders (huge counts 2^20, 2^28, 2^32-1, truncation points, wrong dimension) and loaded by the real code in a child under an address-space limit, recording outcome and bytes allocated; searches are paired with and without a random attached index (same candidates, scores only raised within 1+alpha, order kept); cosine symmetry, range and guard cases are evaluated on random vectors; TLC validates every recorded observation.",
    note="Float values reach TLC as classes; memory measured as TotalAlloc in the child."),
+ "C03": dict(cat="model_checking", ref="DESIGN.md section 5, C03",
+   tech="TLA+ spec Index.tla (index / re-ranker snapshots over histories of load, merge, replace, grow): TLC exhaustive; real histories compared with a freshly loaded database and random/shipped databases compared with a reference scan and a BM25F kernel; TLC validates the recorded observations (TraceSearch.tla TScan/THist, recomputing the scan from token ids for small databases)",
+   text="TLC explores every history (<= 4/5 steps) of load, merge, replace, grow and search and checks that index and re-ranker snapshots equal the command list whenever a search reads them (a re-ranker rebuilt only on load/merge is the defect switch); real databases are put through random histories (LoadDatabaseWithPersonal, UpdateDatabase, appending to Commands, intermediate searches) and their NLP-on/off answers compared with a freshly loaded database; random databases with hostile field contents (Unicode, punctuation, duplicates, empty fields) and the shipped one are searched and compared with a reference scan and BM25F scores recomputed from the texts; for small databases TLC recomputes the candidate set from token ids.",
+   note="Float scores checked by a harness-side kernel (tolerance 1e-9); tokeniser rule is the trusted reference."),
 }
 NOT_APPLICABLE = {}
 
